@@ -195,7 +195,9 @@ impl Model for M {
         };
         written.insert(*sn, (len, to));
         for (r, m) in rm.iter_mut() {
-          if m.reliable && to.map_or(true, |t| t == *r) {
+          // (a reader that has already acknowledged this sequence number - over-acknowledging ACKNACK - does
+          // not count as needing it)
+          if m.reliable && to.map_or(true, |t| t == *r) && *sn >= m.base {
             m.needs.insert(*sn);
           }
         }
@@ -388,6 +390,12 @@ impl Model for M {
             next.push(Ev::Ack(*r, b, vec![last, last + 1]));
           }
         }
+        // a reader that acknowledges more than was ever written (a bug or a lie on its side; "any base" in the
+        // property): the writer may believe it, but its own bookkeeping - what it retains after cleaning, what
+        // its HEARTBEATs advertise - must stay truthful
+        if m.base <= last + 1 && last >= 1 {
+          next.push(Ev::Ack(*r, last + 4, vec![]));
+        }
         // NACKFRAG for the newest fragmented sample still retrievable: the first, the last, the last two fragments
         if let Some(big) = written.iter().rev().find(|(sn, (len, to))| *len == BIG && to.map_or(true, |t| t == *r) && sim.history().contains(*sn)).map(|(sn, _)| *sn) {
           let nfr = ((4 + BIG) as u32).div_ceil(FRAG as u32);
@@ -555,7 +563,7 @@ pub fn run(tier: &str) -> i32 {
     rep.absorb_bfs(&m.cfg.name.clone(), &m.describe(), &bcfg, st);
     rep.machinery_errors.extend(errs);
   }
-  rep.set("alphabet", json!("Write, WriteBig (3 fragments), WriteTo(r) for matched and for currently unmatched r, Burst(40), Ack(r, base in {prev, prev+1, first, last+1} and the regressing prev-1, set in {{}, {base}, {base,last}, {last,last+1}}), Match(r), Lose(r), Reannounce(r) (discovery announces the matched reader again), HbTick, NackFrag(r, newest fragmented sample, {first} | {last} | {last two}), Repair(r)/RepairFrags(r) when armed, Clean"));
+  rep.set("alphabet", json!("Write, WriteBig (3 fragments), WriteTo(r) for matched and for currently unmatched r, Burst(40), Ack(r, base in {prev, prev+1, first, last+1}, the regressing prev-1 and the over-acknowledging last+4, set in {{}, {base}, {base,last}, {last,last+1}}), Match(r), Lose(r), Reannounce(r) (discovery announces the matched reader again), HbTick, NackFrag(r, newest fragmented sample, {first} | {last} | {last two}), Repair(r)/RepairFrags(r) when armed, Clean"));
   rep.assumptions = vec![
     "Puppet readers are truthful: ACKNACK bases never decrease and never exceed last+1 (C03 is the property about that)".into(),
     "Timers are modelled: SendRepairData(r) is offered exactly while rp.repair_mode, SendRepairFrags(r) exactly while fragments are requested (the re-arm rules of Writer::handle_timed_event), heartbeat tick and cache cleaning at any time".into(),
